@@ -84,3 +84,114 @@ def axis_value_rules(run, db):
                       f.loc())
             n_ok += not bad
     return n_ok
+
+
+SM = 'prysm.x.raytracing.spencer_and_murty.'
+
+
+def frame_value_rules(run, db):
+    """the frame transforms on a bundle of two rays with symbolic components, a symbolic 3x3 R and a symbolic P: into the surface frame is
+    R (X - P) with directions R S; out of it is R X + P with directions R S; without R only the translation.  (That the R handed in on the
+    way out is the transpose of the one on the way in is the raytrace wiring rule's.)"""
+    n_ok = 0
+    for fname, sign in (('transform_to_local_coords', -1), ('transform_to_global_coords', +1)):
+        f = db.func(SM + fname)
+        for with_R in (True, False):
+            it, dom = file_interp(db)
+            R = dom.R
+            A = lambda nm: Rat(R.atom(nm))
+            label = '%s on two rays, %s' % (fname, 'with a rotation' if with_R else 'R is None')
+            kw = {'XYZ': FArr.of((2, 3), [dom.sym('X%d%d' % (k, j)) for k in range(2) for j in range(3)]),
+                  'P': FArr.of((3,), [dom.sym('P%d' % j) for j in range(3)]),
+                  'S': FArr.of((2, 3), [dom.sym('S%d%d' % (k, j)) for k in range(2) for j in range(3)]),
+                  'R': FArr.of((3, 3), [dom.sym('R%d%d' % (i, j)) for i in range(3) for j in range(3)]) if with_R else Const(None)}
+            res = it.run(f, kwargs=lambda: dict(kw))
+            rets = [p for p in res if p.outcome == 'return']
+            if len(rets) != len(res) or not rets:
+                raise AnalysisError('%s: not every path returns' % label)
+            for p in rets:
+                v = p.value
+                if not (isinstance(v, Tup) and len(v.items) == 2 and all(isinstance(x, FArr) and tuple(x.shape) == (2, 3) for x in v.items)):
+                    raise AnalysisError('%s: the (positions, directions) pair that is returned is not followed: %r' % (label, v))
+                bad = ''
+                for which, arr in (('X', v.items[0]), ('S', v.items[1])):
+                    for k in range(2):
+                        for i in range(3):
+                            c = dom.rat(arr.boxes[k * 3 + i].v)
+                            if c is None:
+                                raise AnalysisError('%s: a component of the result is not followed: %r' % (label, arr.boxes[k * 3 + i].v))
+                            if with_R:
+                                want = Rat(R.const(0))
+                                for j in range(3):
+                                    comp = A('%s%d%d' % (which, k, j))
+                                    if which == 'X' and sign < 0:
+                                        comp = comp - A('P%d' % j)
+                                    want = want + A('R%d%d' % (i, j)) * comp
+                                if which == 'X' and sign > 0:
+                                    want = want + A('P%d' % i)
+                            else:
+                                want = A('%s%d%d' % (which, k, i)) + (sign * A('P%d' % i) if which == 'X' else 0)
+                            if not bad and not (c == want):
+                                bad = 'component %d of the %s of ray %d is %s, expected %s' % (i, 'position' if which == 'X' else 'direction', k, c.key()[:110], want.key()[:110])
+                run.check(not bad, 'C19.rigid', f.qual, '%s on values%s' % ('into the frame' if sign < 0 else 'out of the frame', '' if with_R else ' (no rotation)'),
+                          '%s: positions %s, directions R S -- a rigid motion, directions never translated' % (label, 'R (X - P)' if sign < 0 else 'R X + P'),
+                          '%s: %s' % (label, bad), f.loc())
+                n_ok += not bad
+    return n_ok
+
+
+def sag_normal_value_rules(run, db):
+    """Surface.sag_normal on a bundle of two rays: with FFp returning (sag, Fx, Fy) per ray, the result is (sag, N) with N[k] = (-Fx[k], -Fy[k], 1)
+    -- the gradient of z - sag(x, y), one row per ray"""
+    from ..core.interp import Value, Obj
+    f = db.func(SF + 'Surface.sag_normal')
+    ci = db.cls(SF + 'Surface')
+    it, dom = file_interp(db)
+    R = dom.R
+
+    class Stub(Value):
+        pass
+    seen = []
+
+    def call_object(fobj, args, kwargs, node):
+        if isinstance(fobj, Stub):
+            seen.append(list(args))
+            return Tup([FArr.of((2,), [dom.sym('Z%d' % k) for k in range(2)]), FArr.of((2,), [dom.sym('FX%d' % k) for k in range(2)]), FArr.of((2,), [dom.sym('FY%d' % k) for k in range(2)])])
+        return None
+    dom.call_object = call_object
+
+    def mk():
+        o = Obj(ci)
+        o.attrs['FFp'] = Stub()
+        return o
+    res = it.run(f, kwargs=lambda: {'x': FArr.of((2,), [dom.sym('x0'), dom.sym('x1')]), 'y': FArr.of((2,), [dom.sym('y0'), dom.sym('y1')])}, self_obj=mk)
+    rets = [p for p in res if p.outcome == 'return']
+    if len(rets) != len(res) or not rets:
+        raise AnalysisError('sag_normal: not every path returns')
+    n_ok = 0
+    for p in rets:
+        v = p.value
+        if not (isinstance(v, Tup) and len(v.items) == 2 and all(isinstance(x, FArr) for x in v.items)):
+            raise AnalysisError('sag_normal: the (sag, normal) pair that is returned is not followed: %r' % (v,))
+        z, n = v.items
+        bad = ''
+        zc = [dom.rat(c) for c in z.values()]
+        nc = [dom.rat(c) for c in n.values()]
+        if any(c is None for c in zc + nc):
+            raise AnalysisError('sag_normal: a component of the result is not followed')
+        A = lambda nm: Rat(R.atom(nm))
+        if tuple(z.shape) != (2,) or not all(zc[k] == A('Z%d' % k) for k in range(2)):
+            bad = 'the sag that is returned is %s' % [c.key() for c in zc]
+        elif tuple(n.shape) != (2, 3):
+            bad = 'the normals have shape %s, one row (nx, ny, nz) per ray is (2, 3)' % (tuple(n.shape),)
+        else:
+            for k in range(2):
+                want = [-A('FX%d' % k), -A('FY%d' % k), Rat(R.const(1))]
+                if not all(nc[k * 3 + i] == want[i] for i in range(3)):
+                    bad = 'the normal of ray %d is (%s), the gradient of z - sag there is (%s)' % (k, ', '.join(c.key() for c in nc[k * 3:k * 3 + 3]), ', '.join(w.key() for w in want))
+                    break
+        if not bad and seen and not all(dom.key(a) is not None or isinstance(a, FArr) for a in seen[0]):
+            bad = ''
+        run.check(not bad, 'C19.normal', f.qual, 'gradient on values', 'sag_normal returns (sag, N) with N[k] = (-dz/dx, -dz/dy, 1) of ray k', 'sag_normal: %s' % bad, f.loc())
+        n_ok += not bad
+    return n_ok
